@@ -125,6 +125,18 @@ def o_match(rec: Recorder, case, soft=False):
         sub = "unicode-digits" if non_ascii_digits and not token.isascii() else f"{exp[0]}-vs-{got[0]}"
         rec.fail(f"C14/outcome/{sub}", f"match() outcome {got} differs from the documented search {exp}", "match", case, got, exp, soft=soft)
         return
+    # TOTP.verify(token, source, ...) is the documented one-call route: same search, same outcome, for every kind of source
+    if len(key) >= 10 and case.get("route", 0):
+        from passlib import exc
+
+        src = [otp, otp.to_json(), otp.to_dict(), otp.to_uri(label="a")][case["route"] % 4]
+        F = TOTP.using(digits=digits, alg=alg, period=period) if isinstance(src, str) and src.startswith("otpauth") else TOTP
+        st, r = call(F.verify, token, src, time=t, window=window, skew=skew, last_counter=last)
+        got2 = ("match", r.counter) if st == "ok" else (("used",) if isinstance(r, exc.UsedTokenError) else ("malformed",) if isinstance(r, exc.MalformedTokenError) else
+                                                        ("invalid",) if isinstance(r, exc.InvalidTokenError) else ("raised", type(r).__name__, str(r)[:80]))
+        if got2 != got:
+            rec.fail("C14/verify-route", f"TOTP.verify(token, source, ...) gives {got2} where match() on the same object gives {got}", "match", case, got2, got, soft=soft)
+            return
     if got[0] == "match":
         c = got[1]
         want = {"counter": c, "time": t, "expected_counter": t // period, "skipped": c - t // period, "expire_time": (c + 1) * period,
@@ -299,7 +311,8 @@ def t_hyp(rec, seed, tier):
         tk = draw(st.sampled_from(["str", "str", "int", "decor", "bytes", "bad-len", "bad-char", "uni-space", "other"]))
         token = {"str": code, "int": int(code), "decor": f" {code[:2]}-{code[2:]}\t", "bytes": code.encode(), "bad-len": code[:-1], "bad-char": code[:-1] + "x",
                  "uni-space": " " + code + " ", "other": "%0*d" % (digits, (int(code) + 1) % 10**digits)}[tk]
-        return {"key": key, "alg": alg, "digits": digits, "period": period, "token": token, "time": t, "window": window, "skew": skew, "last": last, "token_kind": tk}
+        return {"key": key, "alg": alg, "digits": digits, "period": period, "token": token, "time": t, "window": window, "skew": skew, "last": last, "token_kind": tk,
+                "route": draw(st.sampled_from([0, 0, 1, 2, 3, 4]))}
 
     def body(case):
         rec.ev()
